@@ -478,16 +478,31 @@ impl StorageEngine {
         let shard = format!("{kg}:{relation}");
         let time = self.logical_time.fetch_add(1, Ordering::SeqCst);
 
-        // Create DD-style updates (+1 diff for insert)
-        let updates: Vec<Update> = tuples
-            .iter()
-            .map(|data| Update::insert(data.clone(), time))
-            .collect();
+        // Create DD-style updates (+1 diff for insert). The live relation is a set, so
+        // only tuples that are not stored yet (each once) change it: log exactly those,
+        // otherwise the log's net multiplicities drift away from the live state and a
+        // restart (which sums the log) reproduces a different relation.
+        let updates: Vec<Update> = {
+            let snapshot = self.get_snapshot_for(kg)?;
+            let stored: HashSet<&Tuple> = snapshot
+                .input_tuples
+                .get(relation)
+                .map(|existing| existing.iter().collect())
+                .unwrap_or_default();
+            let mut in_batch: HashSet<&Tuple> = HashSet::new();
+            tuples
+                .iter()
+                .filter(|data| !stored.contains(data) && in_batch.insert(data))
+                .map(|data| Update::insert(data.clone(), time))
+                .collect()
+        };
 
         // Persist first (durability guarantee via WAL + batches)
         let persist_start = Instant::now();
         self.persist.ensure_shard(&shard)?;
-        self.persist.append(&shard, &updates)?;
+        if !updates.is_empty() {
+            self.persist.append(&shard, &updates)?;
+        }
         let persist_ms = persist_start.elapsed().as_millis() as u64;
         info!(
             kg = %kg,
@@ -589,15 +604,29 @@ impl StorageEngine {
         let shard = format!("{kg}:{relation}");
         let time = self.logical_time.fetch_add(1, Ordering::SeqCst);
 
-        // Create DD-style updates (-1 diff for delete)
-        let updates: Vec<Update> = tuples
-            .iter()
-            .map(|data| Update::delete(data.clone(), time))
-            .collect();
+        // Create DD-style updates (-1 diff for delete): only for tuples that are stored
+        // (each once) - deleting an absent tuple changes nothing and must not be logged
+        // (see insert_tuples_into)
+        let updates: Vec<Update> = {
+            let snapshot = self.get_snapshot_for(kg)?;
+            let stored: HashSet<&Tuple> = snapshot
+                .input_tuples
+                .get(relation)
+                .map(|existing| existing.iter().collect())
+                .unwrap_or_default();
+            let mut in_batch: HashSet<&Tuple> = HashSet::new();
+            tuples
+                .iter()
+                .filter(|data| stored.contains(data) && in_batch.insert(data))
+                .map(|data| Update::delete(data.clone(), time))
+                .collect()
+        };
 
         // Persist first (durability guarantee via WAL + batches)
         self.persist.ensure_shard(&shard)?;
-        self.persist.append(&shard, &updates)?;
+        if !updates.is_empty() {
+            self.persist.append(&shard, &updates)?;
+        }
 
         // Release dropping_kgs guard before acquiring KG write lock
         drop(dropping_guard);
